@@ -158,7 +158,8 @@ class Check:
 
     # ---- violations ----
     def violation(self, key, text, replay):
-        self.violations.append((key, text, replay))
+        if key not in [v[0] for v in self.violations]:
+            self.violations.append((key, text, replay))
 
     def save_replay(self, data):
         d = os.path.join(VERIF, 'replays', self.pid)
